@@ -57,6 +57,24 @@ pub trait Subject {
     fn relocate(self: Box<Self>) -> (Box<dyn Subject>, bool);
 }
 
+/// An iterator whose size_hint lies (which safe code may do): the lower bound over-reports and/or
+/// the upper bound under-reports.
+struct LyingIter<I> {
+    inner: I,
+    add_lower: usize,
+    upper: Option<usize>,
+}
+impl<I: Iterator> Iterator for LyingIter<I> {
+    type Item = I::Item;
+    fn next(&mut self) -> Option<I::Item> {
+        self.inner.next()
+    }
+    fn size_hint(&self) -> (usize, Option<usize>) {
+        let (lo, _) = self.inner.size_hint();
+        (lo + self.add_lower, self.upper)
+    }
+}
+
 /// collect()/extend() from an iterator with an inexact size hint in this run?
 fn inexact() -> bool {
     with(|w| w.inexact_iter)
@@ -563,10 +581,27 @@ pub fn build(cfg: &Config, initial: Vec<u32>) -> Result<Box<dyn Subject>, ()> {
         crate::flags::in_crate(|| -> Box<dyn Subject> {
             // collect() from an exact or an inexact iterator
             let inexact_it = cfg.inexact_iter;
-            let initial: Box<dyn Iterator<Item = u32>> = if inexact_it {
-                Box::new(initial.into_iter().filter(|_| true))
-            } else {
-                Box::new(initial.into_iter())
+            let initial: Box<dyn Iterator<Item = u32>> = match cfg.iter_kind {
+                2 => Box::new(LyingIter {
+                    inner: initial.into_iter(),
+                    add_lower: 3,
+                    upper: None,
+                }),
+                3 => {
+                    // every second entry is filtered out: (0, Some(2n)) for n items
+                    let sparse: Vec<Option<u32>> = initial.into_iter().flat_map(|i| [Some(i), None]).collect();
+                    Box::new(sparse.into_iter().flatten())
+                }
+                4 => {
+                    let n = initial.len();
+                    Box::new(LyingIter {
+                        inner: initial.into_iter(),
+                        add_lower: 0,
+                        upper: Some(n.saturating_sub(1)),
+                    })
+                }
+                _ if inexact_it => Box::new(initial.into_iter().filter(|_| true)),
+                _ => Box::new(initial.into_iter()),
             };
             // type shapes: (future with/without drop glue) x (output with/without drop glue)
             macro_rules! coll {
